@@ -93,7 +93,10 @@ class Recorder:
                 pass
 
     def mark_nontrivial(self, desc=None):
-        self.nontrivial.add(case_hash(desc if desc is not None else self.current))
+        d = desc if desc is not None else self.current
+        self.nontrivial.add(case_hash(d))
+        if len(self.samples) < MAX_SAMPLES:
+            self.samples.append(jsonable(d))
 
     # -- observations ----------------------------------------------------------
     def count(self, name, n=1):
